@@ -62,3 +62,19 @@ Lemma parent_mutation_shares :
   view blake2b_256 false (run blake2b_256 true false parent_hist init_state) 1
     <> view blake2b_256 false (run blake2b_256 true false (firstn 2 parent_hist) init_state) 1.
 Proof. vm_compute. split; [reflexivity | intro E; discriminate E]. Qed.
+
+(* ClearPrefixLimit on two snapshots of a committed trie with limits below and above the number of
+   matching keys: the handles diverge, the source keeps its view *)
+Definition limit_hist : list xstep :=
+  [Core (Put 0 [n2b 18; n2b 1] v3); Core (Put 0 [n2b 18; n2b 18] v40); Core (Put 0 [n2b 18; n2b 31] v3);
+   Core (Put 0 [n2b 32] v3); Core (Commit 0); Core (Snap 0); Core (Snap 0);
+   ClearLimit 1 [n2b 18] 1%N; ClearLimit 2 [n2b 18] 100%N; ClearLimit 1 [] 1%N].
+Lemma limit_hist_nonvacuous :
+  xfrozen_parents limit_hist = true
+  /\ (let st := xrun blake2b_256 true false limit_hist init_state in
+      let st0 := xrun blake2b_256 true false (firstn 7 limit_hist) init_state in
+      view blake2b_256 false st 0 = view blake2b_256 false st0 0
+      /\ view blake2b_256 false st 1 <> view blake2b_256 false st 0
+      /\ view blake2b_256 false st 2 <> view blake2b_256 false st 0
+      /\ view blake2b_256 false st 1 <> view blake2b_256 false st 2).
+Proof. vm_compute. repeat split; try reflexivity; intro E; discriminate E. Qed.
